@@ -126,13 +126,12 @@ class Repo:
                 from .normalise import unroll_literal_loops, simple_members, inline_simple_members
                 out = unroll_literal_loops(out)
                 if '.' not in qual:
-                    from .normalise import module_functions, inline_module_functions
-                    mf = self.__dict__.setdefault('_module_funcs', {})
-                    if rel not in mf:
-                        mf[rel] = module_functions(self.module(rel), lambda nm: f'{rel}::{nm}' in roles())
-                    out = inline_module_functions(out, mf[rel])
+                    from .normalise import inline_statement_calls
+                    out = inline_statement_calls(out, self._new_functions(rel, ''), False, self.module(rel))
                 if '.' in qual:
                     cname = qual.rsplit('.', 1)[0]
+                    from .normalise import inline_statement_calls
+                    out = inline_statement_calls(out, self._new_functions(rel, cname), True, self.module(rel))
                     sm = self.__dict__.setdefault('_simple_members', {})
                     if (rel, cname) not in sm:
                         cnode = None
@@ -177,6 +176,77 @@ class Repo:
             cache[key] = out
         return cache[key]
 
+    def _new_functions(self, rel, cname):
+        """Helpers the role table does not know (module level for cname == '', else methods of the class) that can be
+        substituted at their statement calls."""
+        from .canon import roles
+        from .normalise import module_functions, class_functions
+        cache = self.__dict__.setdefault('_new_funcs', {})
+        if (rel, cname) not in cache:
+            if not roles() or f'{rel}::@module' not in roles() or os.environ.get('HIDVERIF_NO_NORMALISE'):
+                cache[(rel, cname)] = {}
+            elif not cname:
+                from .normalise import only_statement_called
+                cands = module_functions(self.module(rel), lambda nm: f'{rel}::{nm}' in roles())
+                scope = [n for n in self.module(rel).body if isinstance(n, (ast.FunctionDef, ast.AsyncFunctionDef))]
+                cache[(rel, cname)] = only_statement_called(cands, scope, [self.module(rel)], False) if cands else {}
+            else:
+                cnode = None
+                body = self.module(rel).body
+                for part in cname.split('.'):
+                    cnode = next((n for n in body if isinstance(n, ast.ClassDef) and n.name == part), None)
+                    body = cnode.body if cnode is not None else []
+                known_class = any(k.startswith(f'{rel}::{cname}.') for k in roles())
+                from .normalise import only_statement_called
+                cands = class_functions(cnode, lambda nm: f'{rel}::{cname}.{nm}' in roles()) if known_class else {}
+                scope = [n for n in cnode.body if isinstance(n, (ast.FunctionDef, ast.AsyncFunctionDef))] if cnode is not None else []
+                cache[(rel, cname)] = only_statement_called(cands, scope, list(self.files.values()), True) if cands else {}
+        return cache[(rel, cname)]
+
+    def absorbed(self, rel, cname, normalised):
+        """New helpers of (rel, cname) whose every use was a statement call that the normal form replaced by the helper's
+        body: nothing refers to them any more, what they do is analysed in the context of each former caller."""
+        cands = self._new_functions(rel, cname)
+        gone = set()
+        if not cands:
+            return gone
+        refs = {}
+        for name, fn in normalised.items():
+            for x in ast.walk(fn):
+                nm = x.attr if isinstance(x, ast.Attribute) else x.id if isinstance(x, ast.Name) else None
+                if nm in cands and nm != name:
+                    refs.setdefault(nm, set()).add(name)
+        # references from elsewhere (other classes / modules, class-level statements) keep a helper alive
+        for r2, tree in self.files.items():
+            for top in tree.body:
+                scope = top.body if isinstance(top, ast.ClassDef) else [top]
+                for st in scope:
+                    if r2 == rel and isinstance(st, (ast.FunctionDef, ast.AsyncFunctionDef)) and \
+                            (top.name if isinstance(top, ast.ClassDef) else '') == cname:
+                        continue
+                    for x in ast.walk(st):
+                        nm = x.attr if isinstance(x, ast.Attribute) else x.id if isinstance(x, ast.Name) else None
+                        if nm in cands:
+                            refs.setdefault(nm, set()).add(f'{r2}:outside')
+        changed = True
+        alive = {nm for nm in cands if any(r not in cands for r in refs.get(nm, ()))}
+        while changed:
+            changed = False
+            for nm in cands:
+                if nm not in alive and any(r in alive for r in refs.get(nm, ())):
+                    alive.add(nm)
+                    changed = True
+        return {nm for nm in cands if nm not in alive and nm in self._was_called(rel, cname)}
+
+    def _was_called(self, rel, cname):
+        cands = self._new_functions(rel, cname)
+        out = set()
+        for x in ast.walk(self.module(rel)):
+            nm = x.attr if isinstance(x, ast.Attribute) else x.id if isinstance(x, ast.Name) else None
+            if nm in cands:
+                out.add(nm)
+        return out
+
     def _names_in_file(self, rel):
         cache = self.__dict__.setdefault('_file_names', {})
         if rel not in cache:
@@ -208,8 +278,10 @@ class Repo:
         return cache[(rel, scope)]
 
     def functions(self, rel):
-        return {n.name: self._canon(rel, n.name, n) for n in self.module(rel).body
-                if isinstance(n, (ast.FunctionDef, ast.AsyncFunctionDef))}
+        out = {n.name: self._canon(rel, n.name, n) for n in self.module(rel).body
+               if isinstance(n, (ast.FunctionDef, ast.AsyncFunctionDef))}
+        gone = self.absorbed(rel, '', out)
+        return {k: v for k, v in out.items() if k not in gone}
 
     def find_func(self, rel, qualname, required=True):
         parts = qualname.split('.')
@@ -229,8 +301,10 @@ class Repo:
 
     def methods(self, rel, cls):
         c = self.find_class(rel, cls)
-        return {n.name: self._canon(rel, f'{cls}.{n.name}', n) for n in c.body
-                if isinstance(n, (ast.FunctionDef, ast.AsyncFunctionDef))}
+        out = {n.name: self._canon(rel, f'{cls}.{n.name}', n) for n in c.body
+               if isinstance(n, (ast.FunctionDef, ast.AsyncFunctionDef))}
+        gone = self.absorbed(rel, cls, out)
+        return {k: v for k, v in out.items() if k not in gone}
 
     def module_assign(self, rel, name, required=True):
         """Value node of the last top-level assignment ``name = ...``."""
